@@ -62,6 +62,10 @@ var filterRegOnce sync.Once
 
 func RegisterScriptedFilter() {
 	filterRegOnce.Do(func() {
+		// a network filter that adds nothing to the chain (C12: listener updates change the number of filters)
+		api.RegisterNetwork("verif_noop", func(conf map[string]interface{}) (api.NetworkFilterChainFactory, error) {
+			return noopNetworkFilter{}, nil
+		})
 		api.RegisterStream("verif_scripted", func(conf map[string]interface{}) (api.StreamFilterChainFactory, error) {
 			f := &scriptedFilterFactory{phase: -1}
 			if v, ok := conf["name"].(string); ok {
@@ -106,8 +110,9 @@ type scriptedFilter struct {
 	key     string
 	rh      api.StreamReceiverFilterHandler
 	sh      api.StreamSenderFilterHandler
-	calls   int
-	mutResp bool
+	calls    int
+	mutResp  bool
+	sendStop bool
 }
 
 func (s *scriptedFilter) OnDestroy()                                                {}
@@ -177,6 +182,8 @@ func (s *scriptedFilter) OnReceive(ctx context.Context, headers api.HeaderMap, b
 			s.rh.SendDirectResponse(mosnhttp.ResponseHeader{ResponseHeader: rh}, body, nil)
 		}
 		return api.StreamFilterStop
+	case "sendstop":
+		s.sendStop = true // this filter will stop the send filter chain of the response (the response still goes out)
 	case "rematch":
 		if s.f.phase == int(api.AfterRoute) || s.f.phase == int(api.AfterChooseHost) {
 			return api.StreamFilterReMatchRoute // (in the last phase the proxy ignores it: "Retry only at the AfterRoute phase")
@@ -194,7 +201,15 @@ func (s *scriptedFilter) Append(ctx context.Context, headers api.HeaderMap, buf 
 	if s.f.name == "f0" && s.mutResp && headers != nil {
 		headers.Set("x-rmut", "by-"+s.f.name) // C01: ... and the response
 	}
+	if s.sendStop {
+		return api.StreamFilterStop
+	}
 	return api.StreamFilterContinue
+}
+
+type noopNetworkFilter struct{}
+
+func (noopNetworkFilter) CreateFilterChain(ctx context.Context, callbacks api.NetWorkFilterChainFactoryCallbacks) {
 }
 
 // ---------- reference model ----------
